@@ -57,6 +57,10 @@ func RunSpawned(k int) (blocked bool)                           { panic("intrins
 func DropSpawned()                                              { panic("intrinsic") }
 func SymbolicFormat(on bool)                                    { panic("intrinsic") }
 
+// SetDialConn makes net.Dialer.DialContext return conn (a net.Conn) inside
+// the engine; natively harnesses dial a real loopback listener instead.
+func SetDialConn(conn interface{}) { panic("intrinsic") }
+
 // Virtual clock.
 func Advance(d time.Duration) { panic("intrinsic") }
 func NowNanos() int64         { panic("intrinsic") }
